@@ -1,12 +1,21 @@
 #!/bin/bash
-# tools/seed_run.sh <seed-dir-name> <PID> [tier] — apply a seeded change to /repo, run the check, undo it.
+# tools/seed_run.sh <seed-dir-name> <PID> [tier] — apply a seeded change to a scratch copy of /repo, run the check
+# from a scratch copy of /verif against it (tools/scratch.py); /repo, evidence/ and replay/ are never touched.
 S=$1; P=$2; T=${3:-quick}
-cd /verif
-[ -z "$(git -C /repo status --porcelain)" ] || { echo "repo not clean"; exit 2; }
-git -C /repo apply /verif/seeded/$S/patch.diff || { echo "SEEDRUN $S: patch does not apply"; exit 2; }
-cp evidence/$P.json /tmp/evidence-$P.json.saved 2>/dev/null
-out=$(./check $P $T 2>&1); rc=$?
-[ -f /tmp/evidence-$P.json.saved ] && mv /tmp/evidence-$P.json.saved evidence/$P.json
-git -C /repo checkout -- . ; git -C /repo status --porcelain
-echo "$out" | grep -E "^VIOLATION" | head -3
-echo "SEEDRUN $S on $P ($T): rc=$rc $(echo "$out" | grep -c '^VIOLATION') violation line(s)"
+exec python3 - "$S" "$P" "$T" <<'PY'
+import os, subprocess, sys
+sys.path.insert(0, "/verif/tools")
+import scratch
+S, P, T = sys.argv[1:4]
+with scratch.copies("seedrun-" + S) as (vdir, rdir, env):
+    if subprocess.run(["git", "-C", rdir, "apply", "/verif/seeded/%s/patch.diff" % S]).returncode != 0:
+        print("SEEDRUN %s: patch does not apply" % S); sys.exit(2)
+    r = subprocess.run([vdir + "/check", P, T], capture_output=True, text=True, env=env)
+    v = [l for l in r.stdout.split("\n") if l.startswith("VIOLATION")]
+    print("\n".join(v[:3]))
+    for l in v[:1]:
+        rp = os.path.join(vdir, l.split("replay=")[1].split()[0])
+        if os.path.exists(rp):
+            print(open(rp).read()[:1500])
+    print("SEEDRUN %s on %s (%s): rc=%d %d violation line(s)" % (S, P, T, r.returncode, len(v)))
+PY
